@@ -206,6 +206,31 @@ def run(R):
                 return ASSUME_R
             return None
         record_obligations(R, "C09-asserts", S.obligations_since(n0), assumed, site_prefix=f"[ber_exp, {tag}, ccs in [sigma_min/sigma_max, 1]] ")
+    # ---- ber_exp: the right shift of the 128-bit acceptance value saturates at 63 for x >= 64 ln 2
+    shifts = []
+
+    def obs_s(ev, **kw):
+        if ev == "assign" and not ctx.quiet and kw["frame"].inst is bexp:
+            fr = kw["frame"]
+            stmt = fr.body.blocks[kw["bb"]]["statements"][kw["si"]]
+            k_, v_ = kind_of(stmt["kind"])
+            rk, rv = kind_of(v_[1])
+            if rk == "BinaryOp" and rv[0] in ("Shr", "ShrUnchecked"):
+                try:
+                    lhs = E.operand(kw["st"], fr, rv[1])
+                    amt = E.operand(kw["st"], fr, rv[2])
+                    if type(lhs) is I and prog.ty(lhs.ty).bits() == 128 and type(amt) is I:
+                        shifts.append(kw["st"].itv[amt.vid])
+                except Exception:
+                    pass
+    ctx.observers.append(obs_s)
+    ctx.hooks["unroll"] = lambda fr, h: 10 if fr.inst is bexp else 0
+    st = St()
+    S.run(bexp, [Fl(64.5 * math.log(2), 1e9), Fl(ccs_lo, 1.0), bytes7(st)], st)
+    ctx.observers.remove(obs_s)
+    R.check(shifts and all(a == (63, 63) for a in shifts), "C09-berexp", "ber_exp shift for x >= 64 ln 2", "the 128-bit acceptance value is shifted by exactly 63 (saturation) when floor(x / ln 2) >= 64",
+            f"for x >= 64 ln 2 the shift amount ranges over {sorted(set(shifts))} instead of being clamped to 63: far-tail candidates are accepted with probability ~1/2 instead of <= 2^-63",
+            key="berexp-shamt")
     # ---- (3)(4) sampler_z
     calls, rets, draws = [], [], []
 
